@@ -753,3 +753,8 @@ def sanitizers(ck, rng, cases, progs):
     ck.coverage["sanitizers"] = san
     ck.coverage["sanitizers_note"] = ("Miri and AddressSanitizer runs are a search for counterexamples on the real code "
                                       "(layout, transmute, provenance, allocator are only covered this way); the absence of a report is not a proof")
+
+
+def setup_gen():
+    """called by `./verif setup` before the Coq build: regenerate coq/Gen/{StackTables,UnsafeSites}.v"""
+    return pregen()
